@@ -86,6 +86,10 @@ index_write_h!(c06_index_write_temp_file_with_updates, true);
 // keeps an error path alive whose binrw::Error drop glue exhausts memory even at unwind 4; measured
 // 11 min -> OOM at 16 GB.  save_index's loop is therefore outside the claim.)
 
+// (A second composition attempt — save_index on its success path over the contract of
+// write_index_to_file with every format!() stubbed to a failed check — ran out of memory at 16 GB after
+// 315 s as well; save_index stays outside.)
+
 // std path manipulation is environment code whose debug-assertion UTF-8 boundary checks dominate
 // symex; for the ONE concrete path used below it is replaced by its concrete result.
 fn with_extension_dk<S: AsRef<std::ffi::OsStr>>(p: &Path, ext: S) -> PathBuf {
